@@ -27,15 +27,15 @@ CHECKS = {}   # filled in below as checks are built
 CHECKS["C17"] = dict(
  script="checks/c17.py", engine="tool-world", level="fault_enumeration",
  technique="deterministic simulation of the real tool main()s over a simulated file system with single-fault injection enumerated over every I/O step of each scenario's own trace (oserror, torn/short write, crash before/after/torn, emitter assertion, SIGINT at sampled lines)",
- text="Seeded scenarios (yaml-set, yaml-merge, eyaml-rotate-keys; labelled pre-write failure causes and successful edits; --backup on/off; stale .bak variants; output modes) are run through the real entry points in a simulated process world; for each scenario every faultable I/O step of its recorded trace is faulted in turn with every applicable fault kind (thorough: all; quick: a seeded sample) plus SIGINT at uniformly sampled traced lines and at the lines around every mutating step, and clauses A-D of the property are checked on the resulting simulated disk; session mode strings 3-10 invocations with per-step faults and an operator restore on one disk (clause E). Evidence over sampled scenarios and enumerated fault points, not a proof.",
- note="Trusts the SimFS model of open(O_TRUNC)/unlink/write and of shutil.copy2's step order; single fault per run; no power-loss / page-cache model (the code never fsyncs); no concurrent second process.",
+ text="Seeded scenarios (yaml-set, yaml-merge, eyaml-rotate-keys; labelled pre-write failure causes and successful edits; --backup on/off; stale .bak variants incl. a directory; leftover neighbour files; symlinked, CRLF, zero-byte and non-YAML targets; files named twice; output modes) are run through the real entry points in a simulated process world; for each scenario every faultable I/O step of its recorded trace is faulted in turn with every applicable fault kind (thorough: all; quick: a seeded sample) plus SIGINT at uniformly sampled traced lines and at the lines around every mutating step, and clauses A-D of the property are checked on the resulting simulated disk (A': a fault-free run that exits non-zero leaves the disk unchanged); session mode strings 3-10 invocations with per-step faults and an operator restore on one disk (clause E). Evidence over sampled scenarios and enumerated fault points, not a proof.",
+ note="Trusts the SimFS model of the os/shutil/tempfile file surface (open modes and descriptors, unlink, rename/replace, truncate, chmod/utime, fsync, symbolic links in the last path component, shutil.copy*'s step order), compared with the real file system by selftest/fidelity.py; single fault per run; no power-loss / page-cache model (the code never fsyncs); no concurrent second process.",
  design="DESIGN.md section 3.5")
 
 CHECKS["C19"] = dict(
  script="checks/c19.py", engine="tool-world", level="exploration",
  technique="deterministic simulation of the real eyaml-rotate-keys main() against an in-process fake eyaml peer (keyed randomised reversible cipher over the real command-line protocol) with seeded peer faults (exit non-zero, empty output, echo, wrong key)",
  text="Seeded documents mixing plaintext with encrypted scalars (map values, list elements, Arrays-of-Hashes, anchored with aliases in maps and sequences, plain/quoted/folded/literal, whitespace inside ciphertext, near-miss strings) are rotated by the real tool in the simulated process world; on exit 0 every clause of the property is checked on the re-loaded files and on the peer's call log. Seeded search, not a proof.",
- note="Trusts the fake peer as a model of the eyaml command-line protocol (nothing is claimed about the real hiera-eyaml gem); plaintexts are ASCII without surrounding whitespace; the set of encrypted values is computed by the check's own document walk.",
+ note="Trusts the fake peer as a model of the eyaml command-line protocol (nothing is claimed about the real hiera-eyaml gem); plaintexts are ASCII, with blanks at either end but no trailing line break (eyaml's output protocol cannot express one); the set of encrypted values is computed by the check's own document walk.",
  design="DESIGN.md section 3.6")
 
 for _pid, _title in (("C03", "set"), ("C04", "delete"), ("C09", "query/create")):
@@ -43,8 +43,8 @@ for _pid, _title in (("C03", "set"), ("C04", "delete"), ("C09", "query/create"))
      script="checks/edit_session.py", args=" --property " + _pid,
      engine="edit-session", level="exploration",
      technique="seeded operation histories (set/create/delete/query/reopen) against the real Processor, refinement-checked step by step against a plain-data reference model, with persist/reopen cycles through the simulated file system",
-     text="Each session is one evolving document and a seeded history of 1-12 operations whose paths are drawn against the current state in a dozen path forms; after every step the full snapshot (typed data, key and list order, anchors, alias groups) must equal the reference model's prediction for that step (%s oracle), and the document must dump and strictly reload to the same data; about one session in eight drives the same history through the real yaml-set entry point on the simulated file system (one process per step), one in ten uses YAML merge keys. Seeded search over histories, not a proof." % _title,
-     note="Which nodes a path matches is taken from the real read path and located through each result's parent container (C01/C02 are not claimed); documents exclude merge keys and custom tags; there is no scheduler nondeterminism in this engine, the fault dimension is limited to failed operations and the simulated FS of persist/reopen.",
+     text="Each session is one evolving document and a seeded history of 1-12 operations (plus an unjudged alias step as history builder) whose paths are drawn against the current state in some twenty path forms (concrete, quoted, negative index, slices, every search operator and keyword, anchors, wildcards, traversal, collectors); after every step the full snapshot (typed data, key and list order, anchors, alias groups) must equal the reference model's prediction for that step (%s oracle), and the document must dump and strictly reload to the same data; about one session in eight drives the same history through the real yaml-set entry point on the simulated file system (one process per step), one in ten uses YAML merge keys. Seeded search over histories, not a proof." % _title,
+     note="Which nodes a path matches is taken from the real read path and located through each result's parent container (C01/C02 are not claimed); documents carry no comments or blank lines (ruamel.yaml 0.17.21 mislays them by itself when neighbouring nodes change) and no custom tags; there is no scheduler nondeterminism in this engine, the fault dimension is limited to failed operations and the simulated FS of persist/reopen.",
      design="DESIGN.md section 4")
 
 CHECKS["C16"] = dict(
